@@ -636,3 +636,48 @@ package orda
 //@   requires its.SnapshotDatatype != nil && its.SnapshotDatatype.Snapshot != nil && (its.SnapshotDatatype.Snapshot.(*jsonObject) || its.SnapshotDatatype.Snapshot.(*jsonArray) || its.SnapshotDatatype.Snapshot.(*jsonElement)) && wrappersWF() && its.SnapshotDatatype.BaseDatatype != nil && its.datatype != nil
 //@   ensures[a-detached-node-is-refused] !workOnGarbage && garbageP(primOf(its.SnapshotDatatype.Snapshot.(as jsonType))) ==> result != nil
 //@   modifies nothing
+
+// ---------------------------------------------------------------------------------------
+// Document: identifiers of nested values (C01). A put of a nested value is ONE operation; every replica that applies
+// it builds the children itself and hands out their identifiers (the operation's timestamp with a running delimiter).
+// For replicas to agree, the identifier of each child must be a function of the operation alone: the children of an
+// object are therefore numbered in ascending KEY order (arrays: in index order).
+//   childDelim(o, k)  the delimiter of the create time of the child stored under key k of object o
+// ---------------------------------------------------------------------------------------
+//@ pred childDelim(o *jsonObject, k string) = primOf(o.mapSnapshot.Map[k].(as jsonType)).C.Delimiter
+
+// builds the json node for one value (recursively; reflection): trusted at this level
+//@ func (*jsonPrimitive).addValueToJSONObject
+//@   trusted creates the child by reflection (createJSONTypeFromReflectValue, recursive) and stores it under key in the NEW object jo
+//@   mode math
+//@   requires jo != nil && jo.mapSnapshot != nil && jo.mapSnapshot.Map != nil && ts != nil
+//@   ensures[only-this-key] forall k string :: k != key ==> (k in jo.mapSnapshot.Map) == old(k in jo.mapSnapshot.Map) && jo.mapSnapshot.Map[k] == old(jo.mapSnapshot.Map[k])
+//@   ensures[child-takes-the-next-identifier] key in jo.mapSnapshot.Map && !old(key in jo.mapSnapshot.Map) ==> jo.mapSnapshot.Map[key] != nil && fresh(jo.mapSnapshot.Map[key].(as *jsonObject)) && fresh(primOf(jo.mapSnapshot.Map[key].(as jsonType))) && primOf(jo.mapSnapshot.Map[key].(as jsonType)).C != nil && fresh(primOf(jo.mapSnapshot.Map[key].(as jsonType)).C) && childDelim(jo, key) == old(ts.Delimiter) && ts.Delimiter > old(ts.Delimiter)
+//@   ensures[the-new-child-is-allocated] key in jo.mapSnapshot.Map && !old(key in jo.mapSnapshot.Map) ==> allocated(jo.mapSnapshot.Map[key].(as *jsonObject)) && allocated(primOf(jo.mapSnapshot.Map[key].(as jsonType))) && allocated(primOf(jo.mapSnapshot.Map[key].(as jsonType)).C)
+//@   ensures[identifiers-only-grow] ts.Delimiter >= old(ts.Delimiter)
+//@   ensures[existing-objects-keep-their-parts] (forall o *jsonObject :: old(allocated(o)) ==> o.mapSnapshot == old(o.mapSnapshot) && o.jsonType == old(o.jsonType)) && (forall a *jsonArray :: old(allocated(a)) ==> a.jsonType == old(a.jsonType)) && (forall e *jsonElement :: old(allocated(e)) ==> e.jsonType == old(e.jsonType)) && (forall m *mapSnapshot :: old(allocated(m)) ==> m.Map == old(m.Map))
+//@   ensures[existing-nodes-keep-their-identity] (forall p *jsonPrimitive :: old(allocated(p)) ==> p.C == old(p.C)) && (forall t *model.Timestamp :: t != ts && old(allocated(t)) ==> t.Delimiter == old(t.Delimiter))
+//@   modifies map[string]timedType, mapSnapshot.Size, map[string]jsonType, model.Timestamp.Delimiter, jsonPrimitive.*, jsonElement.*, jsonObject.*, jsonArray.*, listSnapshot.*, map[string]orderedType, orderedNode.*, alloc
+
+//@ func newJSONObject
+//@   trusted allocates an empty object node (and the document's node tables when it is the root)
+//@   mode math
+//@   requires ts != nil
+//@   ensures result != nil && fresh(result) && result.mapSnapshot != nil && fresh(result.mapSnapshot) && result.mapSnapshot.Map != nil && fresh(result.mapSnapshot.Map) && (forall k string :: !(k in result.mapSnapshot.Map)) && result.jsonType != nil
+//@   modifies alloc
+
+//@ func (*jsonPrimitive).createJSONObject
+//@   mode math
+//@   props C01 C03
+//@   uses mapKind
+//@   requires its.common != nil && ts != nil && allocated(ts) && value != nil
+//@   loop 0 invariant[new-object] jo != nil && jo.mapSnapshot != nil && jo.mapSnapshot.Map != nil && ts.Delimiter > old(ts.Delimiter)
+//@   loop 1 invariant[struct-fields] jo != nil && jo.mapSnapshot != nil && jo.mapSnapshot.Map != nil
+//@   loop 0 invariant[c-visited] forall k string :: k in jo.mapSnapshot.Map ==> visited(k) && jo.mapSnapshot.Map[k] != nil
+//@   loop 0 invariant[c-alloc-wrapper] forall k string :: k in jo.mapSnapshot.Map ==> allocated(jo.mapSnapshot.Map[k].(as *jsonObject))
+//@   loop 0 invariant[c-alloc-prim] forall k string :: k in jo.mapSnapshot.Map ==> allocated(primOf(jo.mapSnapshot.Map[k].(as jsonType)))
+//@   loop 0 invariant[c-time] forall k string :: k in jo.mapSnapshot.Map ==> primOf(jo.mapSnapshot.Map[k].(as jsonType)).C != nil && primOf(jo.mapSnapshot.Map[k].(as jsonType)).C != ts && allocated(primOf(jo.mapSnapshot.Map[k].(as jsonType)).C)
+//@   loop 0 invariant[c-below-the-counter] forall k string :: k in jo.mapSnapshot.Map ==> childDelim(jo, k) < ts.Delimiter
+//@   loop 0 invariant[numbered-in-key-order] forall k1 string, k2 string :: k1 in jo.mapSnapshot.Map && k2 in jo.mapSnapshot.Map && strlt(k1, k2) ==> childDelim(jo, k1) < childDelim(jo, k2)
+//@   ensures[children-numbered-in-key-order] result != nil && (value.(map[string]interface{}) ==> forall k1 string, k2 string :: k1 in result.mapSnapshot.Map && k2 in result.mapSnapshot.Map && strlt(k1, k2) ==> childDelim(result, k1) < childDelim(result, k2))
+//@   modifies *
